@@ -67,7 +67,7 @@ CLAIMED = {
          "Serialization.encode/decode (UnknownData pass-through, unknown codec while encoding is EncodeError) are proved for all "
          "states: never-read + same type name reuses the loaded bytes, otherwise the current value is encoded under the current type "
          "name, unknown types keep their bytes. Multi-generation histories and nested unknown names: bounded stand-in."),
- "C15": ("other", "4.IO", "Bounded stand-in, not a proof: every string over {a,b,<,>,','} up to length 6 (quick) / 8 (thorough) plus random "
+ "C15": ("exploration", "4.IO", "Bounded stand-in, not a proof: every string over {a,b,<,>,','} up to length 6 (quick) / 8 (thorough) plus random "
          "perturbed names is compared with an independent recursive-descent parser. Deductively only the wrapper is proved (tokenised "
          "with the documented expression, accepted iff exactly one root, every rejection a TypeNameError); the recursive sibling parser "
          "is outside the verifier's reach (regular expressions, recursion over list slices)."),
